@@ -125,6 +125,8 @@ export function wildType(rng, d) {
     [1, () => `(a: ${sub()}) => ${sub()}`],
     [1, () => `new () => ${sub()}`],
     [1, () => `readonly ${sub()}[]`],
+    [2, () => `${rng.pick(["Set", "ReadonlySet", "Array", "ReadonlyArray", "Promise"])}<${sub()}>`],
+    [1.5, () => `${rng.pick(["Map", "ReadonlyMap", "Record"])}<${rng.pick(["string", "number", sub()])}, ${sub()}>`],
     [1, () => `${rng.pick(WILD_NAMES)}<${sub()}>`],
     [1, () => `${rng.pick(WILD_NAMES)}<${sub()}, ${sub()}>`],
     [1, () => `asserts x is ${sub()}`],
